@@ -632,7 +632,7 @@ fn self_check_roundtrip(rep: &mut Report) {
 }
 
 pub fn run(ctx: &Ctx, rep: &mut Report) {
-    rep.rule = "SEQ: breadth-first over all histories of mem_writer operations up to the depth bound (full 53-letter alphabet, 20-letter core, and a ~170-letter alphabet of every entry point x every one of the 19 format types at depth 2 (thorough 3)), re-executed on a fresh Buffer, dedup on (buffer bytes, slot table, array table); plus every string of <=3 code points over a 10-letter alphabet after 3 prefix lengths and 4 fill patterns at 47 lengths around 64..4096 / up to 40000 UTF-16 units. nontrivial = distinct (deduplicated state, op) transitions in which a fill-later op (set_value/set_value_at) targets a slot that is followed by other data".into();
+    rep.rule = "SEQ: breadth-first over all histories of mem_writer operations up to the depth bound (full 53-letter alphabet, 20-letter core, and a ~170-letter alphabet of every entry point x every one of the 19 format types at depth 2 (thorough 3)), re-executed on a fresh Buffer, dedup on (buffer bytes, slot table, array table); plus every string of <=3 code points over a 14-letter alphabet (incl. blank, newline, tab, ideographic space) after 3 prefix lengths and 4 fill patterns at 47 lengths around 64..4096 / up to 40000 UTF-16 units. nontrivial = distinct (deduplicated state, op) transitions in which a fill-later op (set_value/set_value_at) targets a slot that is followed by other data".into();
     rep.assume("scroll's derived Pread is the inverse of its Pwrite for the POD format structs (checked at start-up for every type; primitives and three structs are checked byte-exact against a hand encoder)");
     if let Some(case) = &ctx.replay {
         if let Some(h) = case.get("history").and_then(|h| h.as_array()) {
@@ -663,7 +663,7 @@ pub fn run(ctx: &Ctx, rep: &mut Report) {
     bfs(rep, &type_alphabet(), if ctx.tier.is_thorough() { 3 } else { 2 }, "every_entry_point_x_every_type");
     rep.nontrivial = FILL_LATER.load(std::sync::atomic::Ordering::Relaxed);
     // strings
-    let letters: [char; 10] = ['a', '\u{e9}', '\u{20ac}', '\u{0}', '\u{d7ff}', '\u{e000}', '\u{ffff}', '\u{10000}', '\u{1f600}', '\u{10ffff}'];
+    let letters: [char; 14] = ['a', '\u{e9}', '\u{20ac}', '\u{0}', '\u{d7ff}', '\u{e000}', '\u{ffff}', '\u{10000}', '\u{1f600}', '\u{10ffff}', ' ', '\n', '\t', '\u{3000}'];
     let mut nstr = 0u64;
     for prefix in [0usize, 1, 5] {
         check_string(rep, prefix, "");
